@@ -210,6 +210,14 @@ def familySession (src : NameSource) (sp : AnalyzerSpec) (cfg : List Nat) (kinds
           | none => "r"
           | some v => if (read ob.spec semO t.g (mk (inputs t.o))).2 == some v then "1" else "0"
         (p', inputs, n, s!"{t.g}:s={same}:t=0" :: out)
+    | "c" =>
+      -- `copy.copy(obj)`: a new object (id `t.o`) in the state of object `t.g`
+      match p.obj t.g with
+      | none => (p, inputs, n, "noobj" :: out)
+      | some ob => (sstep src h sem p (.new t.o ob), upd inputs t.o (inputs t.g), n, "c:t=0" :: out)
+    | "x" =>
+      -- a `set_input` that raises: the object answers as before (whether or not it has been reset meanwhile)
+      (p, inputs, n, "x:t=0" :: out)
     | k =>
       let newIn := s!"y{n}"
       let refreshed := match p.obj t.o with
